@@ -69,7 +69,7 @@ def run(ctx):
     if not alloc_stream.run_stream(ctx, ctx.n(200, 5000), ctx.n(120, 300), "C20"):
         return
     # (b) programs under the layout-checking allocator, stats after a forced full collection
-    files = sched_stream.write_generated(ctx, ctx.n(80, 1500), "gen") + sched_stream.fixture_programs(ctx.n(200, None))
+    files = sched_stream.write_generated(ctx, ctx.n(80, 1500), "gen") + sched_stream.write_zoo(ctx, ctx.n(60, 1500)) + sched_stream.fixture_programs(ctx.n(200, None))
     import random
     rng = random.Random(ctx.seed * 77 + 20)
     gd = os.path.join(common.VERIF, "work", "c20_grown_%s" % ctx.tier)
